@@ -67,6 +67,9 @@ class Placement:
 PLACE = Placement()
 
 
+MALFORMED = 'malformed'
+
+
 class C19(core.Prop):
     ID = 'C19'
     MODULES = loader.CORE + loader.LAYOUT
@@ -331,7 +334,14 @@ class C19(core.Prop):
             U.vector_angle_degrees, U.rotate_degrees, GL.rotate_to_axis = angle_stub, rot_stub, axis_stub
 
         def plain(res):
-            return {str(n): [float(x) for x in v] for n, v in res.items()}
+            out = {}
+            for n, v in res.items():
+                try:
+                    xs = [float(x) for x in v]
+                except TypeError:
+                    xs = []
+                out[str(n)] = xs if len(xs) == 2 else MALFORMED      # not a point in the plane
+            return out
         try:
             r = core.guard(M.graph_layout.vespr_layout, g, default_bond=float(inp['bond']), **akw)
             if r[0] == 'ok':
@@ -362,6 +372,8 @@ class C19(core.Prop):
         for ret, bond in zip(rets, bonds):
             if sorted(ret.keys()) != sorted(str(n) for n in g.nodes):
                 return [('one_position_per_node', False)]
+            if any(v == MALFORMED for v in ret.values()):
+                return [('every_position_is_a_point_in_the_plane', False)]
             out += self._concrete_clauses(g, bond, ret)
         return out
 
@@ -392,6 +404,10 @@ class C19(core.Prop):
         for ret in rets:
             ok = sorted(ret.keys()) == sorted(str(n) for n in g.nodes)
             cl.append(('one_position_per_node', ok))
+            if not ok:
+                return cl
+            ok = not any(v == MALFORMED for v in ret.values())
+            cl.append(('every_position_is_a_point_in_the_plane', ok))
             if not ok:
                 return cl
         symbolic = any(symx.is_sym(x) for ret in rets for v in ret.values() for x in v)
